@@ -34,6 +34,8 @@ inductive Step
   | pass (emit : Option Nat)
   /-- the process dies: of the `emit` blocks handed out those selected were committed -/
   | crash (emit : Option Nat) (sel : List Bool)
+  /-- a batch write fails: `(nil, err)`; of the `emit` blocks handed out those selected were committed -/
+  | writeFail (emit : Option Nat) (sel : List Bool)
 
 /-- `backfillBlock` on the selected blocks of `[start, start+e)`. -/
 def applyPass (db : Db) (start h : Nat) (sel : Nat → Bool) : Db :=
@@ -67,6 +69,9 @@ def migrate (db : Db) (next : Nat) (st : Step) : Db × Ret :=
       | .crash emit sel =>
         let e := min (emit.getD all) all
         (applyPass db start h (fun i => decide (i < e) && sel.getD i false), .crashed)
+      | .writeFail emit sel =>
+        let e := min (emit.getD all) all
+        (applyPass db start h (fun i => decide (i < e) && sel.getD i false), .failed)
 
 /-- The runner's handling of the return value: the checkpoint is saved on `(state, nil)`, cleared
 with the applied bit on `(nil, nil)`, kept as it was when the process died or `Migrate` failed. -/
